@@ -4,6 +4,7 @@ import (
 	"context"
 	"errors"
 	"fmt"
+	"net"
 	"runtime"
 	"sort"
 	"strings"
@@ -17,6 +18,7 @@ import (
 
 	"crypto/tls"
 
+	"verif/harness/dnsfx"
 	"verif/harness/ev"
 	"verif/harness/wire"
 )
@@ -649,4 +651,121 @@ func allFinishedBy(finishes []c18Event, dialable []int, t time.Duration) bool {
 		}
 	}
 	return true
+}
+
+// TestC18Names: target order, completeness and first success for comma-separated lists of
+// NAMES whose resolutions overlap (virtual hosts behind one address, the same service
+// reached under two names). Attempts are sequential (MaxConcurrency 1, each outcome is
+// immediate), so the expected attempt log is exact: hosts in the order listed, each host's
+// addresses in answer order, up to and including the first attempt that succeeds.
+func TestC18Names(t *testing.T) {
+	rec := ev.Get("C18")
+	rapid.Check(t, func(t *rapid.T) {
+		z := dnsfx.NewZone()
+		z.Version = 1
+		pool := []net.IP{{192, 0, 2, 1}, {192, 0, 2, 2}, {192, 0, 2, 3}}
+		nh := rapid.IntRange(2, 4).Draw(t, "hosts")
+		type att struct{ Host, Addr string }
+		var entries []string
+		var want []att
+		okHost := -1
+		outcome := make([]string, nh)
+		shared := false
+		seenAddr := map[string]bool{}
+		for i := 0; i < nh; i++ {
+			h := fmt.Sprintf("v%d.example", i)
+			port := rapid.SampledFrom([]int{443, 443, 8443}).Draw(t, fmt.Sprintf("port%d", i))
+			entry := h
+			if port != 443 || rapid.Bool().Draw(t, fmt.Sprintf("explicit443_%d", i)) {
+				entry = fmt.Sprintf("%s:%d", h, port)
+			}
+			entries = append(entries, entry)
+			ips := rapid.Permutation(pool).Draw(t, fmt.Sprintf("ips%d", i))[:rapid.IntRange(1, 2).Draw(t, fmt.Sprintf("nips%d", i))]
+			outcome[i] = rapid.SampledFrom([]string{"fail", "fail", "ok"}).Draw(t, fmt.Sprintf("outcome%d", i))
+			for _, ip := range ips {
+				z.A[h] = append(z.A[h], dnsfx.ZRec{TTL: 60, IP: ip})
+				a := net.JoinHostPort(ip.String(), fmt.Sprint(port))
+				if seenAddr[a] {
+					shared = true
+				}
+				seenAddr[a] = true
+				if okHost < 0 {
+					want = append(want, att{h, a})
+					if outcome[i] == "ok" {
+						okHost = i
+					}
+				}
+			}
+		}
+		var mu sync.Mutex
+		var log []att
+		sentinel := func(a att) error { return fmt.Errorf("attempt %s@%s failed", a.Host, a.Addr) }
+		var made []*fakeConn
+		d := &ech.Dialer[*fakeConn]{MaxConcurrency: 1, ConcurrencyDelay: time.Duration(rapid.SampledFrom([]int{1, 2, 5}).Draw(t, "delay_ms")) * time.Millisecond} // short: a failure that comes while the next name is being resolved does not shorten the wait
+		d.DialFunc = func(ctx context.Context, network, addr string, tc *tls.Config) (*fakeConn, error) {
+			if ctx.Err() != nil {
+				// begun after the outcome was decided (allowed: it runs under a cancelled context)
+				return nil, ctx.Err()
+			}
+			mu.Lock()
+			defer mu.Unlock()
+			a := att{tc.ServerName, addr}
+			log = append(log, a)
+			for i := 0; i < nh; i++ {
+				if a.Host == fmt.Sprintf("v%d.example", i) && outcome[i] == "ok" {
+					c := &fakeConn{id: len(made)}
+					made = append(made, c)
+					return c, nil
+				}
+			}
+			return nil, sentinel(a)
+		}
+		addrArg := strings.Join(entries, ",")
+		rp := map[string]any{"addr": addrArg, "zone": z.Describe(), "outcomes": outcome}
+		var conn *fakeConn
+		var derr error
+		withZoneServer(z, nil, func(url string, srv *dnsfx.Server) {
+			r, err := ech.NewResolver(url)
+			if err != nil {
+				t.Fatalf("harness: %v", err)
+			}
+			r.SetCacheSize(0)
+			d.Resolver = r
+			ctx, cancel := context.WithTimeout(context.Background(), 30*time.Second)
+			defer cancel()
+			derr = guard(func() error { var e error; conn, e = d.Dial(ctx, "tcp4", addrArg, nil); return e })
+		})
+		mu.Lock()
+		got := append([]att{}, log...)
+		madeNow := append([]*fakeConn{}, made...)
+		mu.Unlock()
+		rp["attempts"] = fmt.Sprint(got)
+		if isPanic(derr) {
+			ev.Violation(t, "C18", rp, "Dial panicked: %v", derr)
+		}
+		if fmt.Sprint(got) != fmt.Sprint(want) {
+			ev.Violation(t, "C18", rp, "attempts (server name@address, in order) %v, the listed names and their addresses in order give %v", got, want)
+		}
+		if okHost >= 0 {
+			if derr != nil || conn == nil || len(madeNow) != 1 || conn != madeNow[0] {
+				ev.Violation(t, "C18", rp, "the attempt for %s succeeded but Dial returned (%v, %v)", entries[okHost], conn, derr)
+			}
+		} else {
+			if derr == nil {
+				ev.Violation(t, "C18", rp, "no attempt succeeded but Dial returned a connection")
+			}
+			for _, a := range want {
+				if !strings.Contains(derr.Error(), sentinel(a).Error()) {
+					ev.Violation(t, "C18", rp, "joined error %q lacks the error of attempt %s@%s", derr, a.Host, a.Addr)
+				}
+			}
+		}
+		cl := []string{"name_list"}
+		if shared {
+			cl = append(cl, "names_share_an_address")
+		}
+		rec.Case("names|"+addrArg+"|"+fmt.Sprint(z.Describe(), outcome), shared, cl, func() any {
+			return map[string]any{"kind": "name_list", "addr": addrArg, "attempts": fmt.Sprint(got), "err": fmt.Sprint(derr)}
+		})
+	})
 }
